@@ -42,8 +42,27 @@ def _resolver(repo, fi):
     return lambda e: repo.resolve_expr(fi, e)
 
 
+def derived_attrs(repo):
+    """self.X = <expression over other attributes only> in __init__ (e.g. self.step = self.nswin - self.overlap): X in terms of the base attributes"""
+    fi = repo.fn(CLS + ".__init__")
+    out = {}
+    ev = Evaluator(facts=_facts(), resolve=_resolver(repo, fi))
+    for st in fi.node.body:
+        if isinstance(st, ast.Assign) and len(st.targets) == 1 and isinstance(st.targets[0], ast.Attribute) and loc_name(st.targets[0]) and loc_name(st.targets[0]).startswith("self."):
+            names = {n.id for n in ast.walk(st.value) if isinstance(n, ast.Name)}
+            if names <= {"self"} and any(isinstance(n, ast.Attribute) for n in ast.walk(st.value)):
+                try:
+                    ev2 = Evaluator(env=dict(out), facts=_facts(), resolve=_resolver(repo, fi))
+                    out[loc_name(st.targets[0])] = ev2.ev(st.value)
+                except Undecided:
+                    pass
+    return out
+
+
 def generator_model(repo):
-    """Evaluate WindowGenerator.firstlast into (init first, yielded (first,last), break test, stride, iw facts)."""
+    """Evaluate WindowGenerator.firstlast into closed forms over the iteration number K: the loop-carried variables (a local cursor `first`, a
+    local counter, self.iw ...) are solved as v_K = v_0 + K * delta (or as a copy of another solved variable), the yielded pair, the end test
+    and self.iw at the yield are then expressed in K.  -> dict (same keys as before; 'F' is first_K, 'first_next' is first_(K+1))."""
     fi = repo.fn(CLS + ".firstlast")
     loops = [s for s in fi.node.body if isinstance(s, ast.While)]
     if len(loops) != 1:
@@ -52,44 +71,105 @@ def generator_model(repo):
     pre = fi.node.body[: fi.node.body.index(lp)]
     nothing_after = fi.node.body.index(lp) == len(fi.node.body) - 1
     facts = _facts()
-    ev0 = Evaluator(facts=facts, resolve=_resolver(repo, fi))
+    facts.int_syms |= {"K"}
+    base = derived_attrs(repo)
+    ev0 = Evaluator(env=dict(base), facts=facts, resolve=_resolver(repo, fi))
     sx0 = SymExec(ev0, on_undecided="havoc")
     sx0.run(pre)
-    init_first = ev0.env.get("first")
-    init_iw = ev0.env.get("self.iw")
-    # one iteration from a symbolic first = F, iw = I
-    F, I = Poly.sym("F"), Poly.sym("I")
-    facts.int_syms |= {"I"}
-    ev = Evaluator(env={"first": F, "self.iw": I}, facts=facts, resolve=_resolver(repo, fi))
-    sx = SymExec(ev, on_undecided="havoc")
-    yielded = None
-    break_test = None
-    order = []
-    for s in lp.body:
-        if isinstance(s, ast.Expr) and isinstance(s.value, ast.Yield):
-            v = s.value.value
-            if not (isinstance(v, ast.Tuple) and len(v.elts) == 2):
-                raise AnalysisError("firstlast yields something other than a (first, last) pair")
-            yielded = (ev.ev(v.elts[0]), ev.ev(v.elts[1]))
-            order.append("yield")
-        elif isinstance(s, ast.If) and any(isinstance(b, ast.Break) or (isinstance(b, ast.Return) and b.value is None and nothing_after) for b in s.body):
-            # `return` ends a generator like `break` does when nothing follows the loop
-            cmp_ = s.test
-            if isinstance(cmp_, ast.Compare) and len(cmp_.ops) == 1:
-                break_test = (ev.ev(cmp_.left), type(cmp_.ops[0]).__name__, ev.ev(cmp_.comparators[0]))
-            order.append("break")
-        else:
-            before = dict(ev.env)
-            sx.step(s)
-            if ev.env.get("first") != before.get("first"):
-                order.append("advance")
-            if ev.env.get("self.iw") != before.get("self.iw"):
-                order.append("count")
-    loop_test = lp.test
+    # loop-carried variables: stored in the loop body (names and self attributes)
+    carried = []
+    for n in ast.walk(lp):
+        tg = []
+        if isinstance(n, ast.Assign):
+            for t in n.targets:
+                tg += list(t.elts) if isinstance(t, (ast.Tuple, ast.List)) else [t]
+        elif isinstance(n, ast.AugAssign):
+            tg = [n.target]
+        for t in tg:
+            ln = loc_name(t)
+            if ln and ln not in carried and (isinstance(t, ast.Name) or ln.startswith("self.")):
+                carried.append(ln)
+    state = [v for v in carried if v in ev0.env]          # defined before the loop: their value at loop entry matters
+    init = {v: ev0.env[v] for v in state}
+    K = Poly.sym("K")
+    sym = {v: Poly.sym("@" + v) for v in state}
+    facts.int_syms |= {"@" + v for v in state}
+
+    def iterate(entry):
+        env = dict(base)
+        env.update(entry)
+        ev = Evaluator(env=env, facts=facts, resolve=_resolver(repo, fi))
+        sx = SymExec(ev, on_undecided="havoc")
+        out = {"yielded": None, "break": None, "order": [], "at_yield": None}
+        for s_ in lp.body:
+            if isinstance(s_, ast.Expr) and isinstance(s_.value, ast.Yield):
+                v = s_.value.value
+                if not (isinstance(v, ast.Tuple) and len(v.elts) == 2):
+                    raise AnalysisError("firstlast yields something other than a (first, last) pair")
+                out["yielded"] = (ev.ev(v.elts[0]), ev.ev(v.elts[1]))
+                out["at_yield"] = dict(ev.env)
+                out["order"].append("yield")
+            elif isinstance(s_, ast.If) and any(isinstance(b_, ast.Break) or (isinstance(b_, ast.Return) and b_.value is None and nothing_after) for b_ in s_.body):
+                cmp_ = s_.test
+                if isinstance(cmp_, ast.Compare) and len(cmp_.ops) == 1:
+                    out["break"] = (ev.ev(cmp_.left), type(cmp_.ops[0]).__name__, ev.ev(cmp_.comparators[0]))
+                out["order"].append("break")
+            else:
+                before = dict(ev.env)
+                sx.step(s_)
+                changed = [v for v in state if ev.env.get(v) != before.get(v)]
+                if out["yielded"] is not None and any(v != "self.iw" for v in changed) and "advance" not in out["order"]:
+                    out["order"].append("advance")
+                if "self.iw" in changed and out["yielded"] is not None:
+                    out["order"].append("count")
+                if out["yielded"] is None and any(v for v in changed):
+                    out["order"].append("pre:" + ",".join(changed))
+        out["exit"] = {v: ev.env.get(v) for v in state}
+        return out
+    one = iterate(sym)
+    # a variable overwritten before it is read has no entry value that matters (dead on entry): it needs no closed form
+    used = set()
+    for p_ in list(one["exit"].values()) + list(one["yielded"] or ()) + ([one["break"][0], one["break"][2]] if one["break"] else []):
+        if p_ is not None:
+            used |= p_.symbols()
+    for v_ in (one["at_yield"] or {}).values():
+        used |= v_.symbols()
+    state = [v for v in state if "@" + v in used]
+    # solve the recurrences
+    closed = {}
+    pending = list(state)
+    for _ in range(len(state) + 1):
+        for v in list(pending):
+            nxt = one["exit"].get(v)
+            if nxt is None:
+                raise AnalysisError(f"firstlast: `{v}` is lost in the loop body")
+            delta = nxt - sym[v]
+            if not any(x.startswith("@") for x in delta.symbols()):
+                closed[v] = init[v] + K * delta
+                pending.remove(v)
+            elif sym[v].canon() not in {x for x in nxt.symbols()} and all(x[1:] in closed for x in nxt.symbols() if x.startswith("@")):
+                # v' is a function of other solved variables: v_K = f(u_(K-1)) for K >= 1, and must agree with the initial value at K = 0
+                prev = nxt.subs({"@" + u: closed[u].subs({"K": K - Poly.const(1)}) for u in closed})
+                if prev.subs({"K": Poly.const(0)}) != init[v]:
+                    raise AnalysisError(f"firstlast: `{v}` starts at {init[v]} but continues as {prev}: no closed form")
+                closed[v] = prev
+                pending.remove(v)
+    if pending:
+        raise AnalysisError(f"firstlast: no closed form for the loop-carried variable(s) {pending}")
+    at_k = iterate({v: closed[v] for v in state})
+    y = at_k["yielded"]
+    if y is None:
+        raise AnchorMissing("firstlast: no yield in the loop")
+    first_k = y[0]
+    first_next = first_k.subs({"K": K + Poly.const(1)})
+    iw_at_yield = at_k["at_yield"].get("self.iw") if at_k["at_yield"] else None
+    # which carried variables feed the yielded bounds (in the one-iteration run with symbolic entry state)
+    feeds = sorted({x[1:] for x in (one["yielded"][0].symbols() | one["yielded"][1].symbols()) if x.startswith("@")}) if one["yielded"] else []
+    order = [o for o in at_k["order"] if not o.startswith("pre:")]
     return {
-        "fi": fi, "loop": lp, "init_first": init_first, "init_iw": init_iw, "yielded": yielded, "break": break_test,
-        "first_next": ev.env.get("first"), "iw_next": ev.env.get("self.iw"), "order": order, "loop_test": loop_test,
-        "F": F, "I": I,
+        "fi": fi, "loop": lp, "init_first": first_k.subs({"K": Poly.const(0)}), "init_iw": init.get("self.iw"), "yielded": y, "break": at_k["break"],
+        "first_next": first_next, "iw_next": None, "iw_at_yield": iw_at_yield, "order": order, "loop_test": lp.test,
+        "F": first_k, "I": K, "feeds": feeds, "closed": closed, "state": state,
     }
 
 
@@ -127,15 +207,24 @@ def d1_generator(ctx):
               f"stride is {stride}, expected self.nswin - self.overlap (overlap would be {(W - stride)} instead of the requested amount)", key="stride")
     o = g["order"]
     ok_order = "yield" in o and "break" in o and "advance" in o and o.index("yield") < o.index("break") < o.index("advance")
+    if "advance" not in o and "yield" in o and "break" in o and "count" in o:
+        ok_order = o.index("yield") < o.index("break") < o.index("count")      # the counter is the cursor
     ctx.check(ok_order, fi, lp, f"order {o}", "yield, then end test, then advance", f"loop order is {o}: the end test must follow the yield and precede the advance",
               key="order")
     okt = isinstance(g["loop_test"], ast.Constant) and g["loop_test"].value is True
     ctx.check(okt, fi, lp, f"while {src(g['loop_test'])}", "loop runs until the explicit end test",
               f"loop condition `{src(g['loop_test'])}` can end the generation before the last window", key="loop-test")
-    ctx.check(g["init_iw"] == Poly.const(0) and g["iw_next"] == g["I"] + Poly.const(1) and "count" in o and o.index("count") > o.index("break"),
-              fi, lp, f"iw0 = {g['init_iw']}, iw' = {g['iw_next']}", "iw is the index of the window being yielded (0-based)",
-              f"iw starts at {g['init_iw']} and becomes {g['iw_next']} (order {o}): consumers keyed on iw == 0 / iw == nwin-1 mis-identify the edge windows",
+    ctx.check(g["iw_at_yield"] is not None and g["iw_at_yield"] == g["I"], fi, lp, f"self.iw while window K is out = {g['iw_at_yield']}",
+              "iw is the index of the window being yielded (0-based)",
+              f"while the K-th window is handed out self.iw is {g['iw_at_yield']} (order {o}): consumers keyed on iw == 0 / iw == nwin-1 mis-identify the edge windows",
               key="iw")
+    # the position of a generator lives in ITS frame: a cursor kept in an attribute of the shared object is reset / advanced by every other
+    # generator of the same object (firstlast, slice, firstlast_valid, firstlast_splicing, tscale all start one)
+    shared_cursor = [v for v in g["feeds"] if v.startswith("self.")]
+    ctx.check(not shared_cursor, fi, lp, f"window bounds are computed from {g['feeds']}", "the window position is carried by locals of the generator",
+              f"the bounds of the next window are computed from {shared_cursor}, an attribute that every generator started on the same object resets to 0 and advances: "
+              "a second iteration begun while this one is suspended (nested loops, zip of two generators, a tscale() call inside the loop) makes it resume from the other's "
+              "cursor - windows are skipped or repeated", key="cursor-local", name_free=True)
 
 
 def d2_valid(ctx):
@@ -431,6 +520,34 @@ def d5_tscale(ctx):
         names = [loc_name(e) for e in c.generators[0].target.elts]
         ev = Evaluator(facts=_facts(), resolve=_resolver(repo, fi))
         got = ev.ev(c.elt)
+        # what is returned may scale the comprehension afterwards: np.array(<comprehension>) / fs
+        rets = [r for r in ast.walk(fi.node) if isinstance(r, ast.Return) and r.value is not None]
+        if len(rets) == 1:
+            from sa.common import expand_name as _expand
+            du_ = DefUse(fi.node)
+            rv = rets[0].value
+
+            class _Hole(ast.NodeTransformer):
+                def visit_Name(self, node):
+                    v = _expand(du_, node, rets[0])
+                    return self.visit(v) if v is not node else node
+
+                def visit_ListComp(self, node):
+                    return ast.Name(id="__elt", ctx=ast.Load()) if node is c else node
+                visit_GeneratorExp = visit_ListComp
+
+                def visit_Call(self, node):
+                    node = self.generic_visit(node)
+                    if call_name(node) in ("array", "asarray", "fromiter", "list") and node.args and isinstance(node.args[0], ast.Name) and node.args[0].id == "__elt":
+                        return node.args[0]
+                    return node
+            import copy as _copy
+            hv = _Hole().visit(_copy.deepcopy(rv)) if rv is not c else ast.Name(id="__elt", ctx=ast.Load())
+            if any(isinstance(n, ast.Name) and n.id == "__elt" for n in ast.walk(hv)):
+                try:
+                    got = Evaluator(env={"__elt": got}, facts=_facts(), resolve=_resolver(repo, fi)).ev(hv)
+                except Undecided as e:
+                    raise AnalysisError(f"tscale: returned expression not evaluable: {e}")
         F, L, FS = Poly.sym(names[0]), Poly.sym(names[1]), Poly.sym("fs")
         want = (F + L - Poly.const(1)) * Poly.const(0.5) * FS.pow(-1)
         ctx.check(got == want, fi, c, f"tscale element = {got}", "time scale is the window centre", f"time scale element is {got}, expected {want}", key="tscale")
